@@ -578,3 +578,71 @@ def rule_l_recheck_nested(la, res, site, rule="L-RECHECK"):
     else:
         res.oblige(rule, inst, True, "%d store(s) to fields only the outer predicate reads, each accompanied by a store the inner loop tests" % n, where)
     return 1
+
+
+def rule_refusal_ends_wait(la, res, site, flag=("channel", "is_accepting_writes"), rule="L-REFUSE-WAKES"):
+    """A flag whose clearing is announced on the waiter's condition variable ("stop waiting, you will get
+    nothing") releases a sleeping waiter only if the waiter tests it after every wake-up and leaves the loop
+    when it is clear: some exit condition of the wait loop reads the flag directly, its exit edge is the
+    flag-clear edge, and every way from the wait back to the wait passes that test.  (A test before the
+    loop serves only the caller that arrives after the refusal; a callee that folds the flag into "no room"
+    keeps the waiter asleep.)"""
+    f = site["fn"]
+    loop = set(site["loop"] or ())
+    if not loop:
+        return 0
+    good = []
+
+    def atoms(node, stay_true):
+        """atoms that must all hold (with the given polarity) for the loop to continue"""
+        node = ir.strip(node)
+        if isinstance(node, dict) and node.get("k") == "ref":
+            t = f.resolve_ref(node)
+            if t is not None:
+                return atoms(t, stay_true)
+        if isinstance(node, dict) and node.get("k") == "paren":
+            return atoms(node["e"], stay_true)
+        if isinstance(node, dict) and node.get("k") == "un" and node.get("op") == "!":
+            return atoms(node["e"], not stay_true)
+        if isinstance(node, dict) and node.get("k") == "bin" and node.get("op") == "&&" and stay_true:
+            return atoms(node["l"], True) + atoms(node["r"], True)
+        if isinstance(node, dict) and node.get("k") == "bin" and node.get("op") == "||" and not stay_true:
+            return atoms(node["l"], False) + atoms(node["r"], False)
+        if isinstance(node, dict) and node.get("k") == "bin" and node.get("op") in ("!=", "==") and ir.is_const(node.get("r"), 0):
+            return atoms(node["l"], stay_true if node["op"] == "!=" else not stay_true)
+        return [(node, stay_true)]
+    for c in site["conds"]:
+        if len(c["stay_on"]) != 1 or c["stay_on"][0] not in ("true", "false"):
+            continue
+        for node, pol in atoms(c["node"], c["stay_on"][0] == "true"):
+            if isinstance(node, dict) and node.get("k") == "mem" and node.get("f") == flag[1] and pol:
+                good.append(c["block"])
+    inst = "%s: clearing %s ends the wait (tested after every wake-up, exit on clear)" % (f.name, ".".join(flag))
+    where = f.loc(site["stmt"])
+    ok = False
+    if good:
+        # from the wait, can the wait be reached again without passing a good test?
+        start = site["block"]
+        seen = set()
+        st = [s for s in f.blocks[start].succ_ids() if s in loop]
+        ok = True
+        if start in good:
+            ok = True
+        else:
+            while st:
+                x = st.pop()
+                if x in seen or x in good:
+                    continue
+                seen.add(x)
+                if x == start:
+                    ok = False
+                    break
+                st += [s for s in f.blocks[x].succ_ids() if s in loop]
+    if ok:
+        res.oblige(rule, inst, True, "exit condition in block(s) %s" % sorted(good), where)
+    else:
+        res.fail(rule, inst, "%s|%s" % (rule, f.name), where,
+                 "the wait loop of %s does not leave when %s is cleared: %s - a writer that is already asleep when writes are refused wakes up, "
+                 "finds no room, and sleeps again for ever (abort, stop and a failing sink all rely on the refusal to release it)"
+                 % (f.name, ".".join(flag), "no exit condition of the loop tests the flag itself" if not good else "a path from the wait back to the wait avoids the test"))
+    return 1
